@@ -197,6 +197,8 @@ def prechecks(pre, fname):
             kind = "len_points_weights"
         elif re.search(r"if weights\.type_\(\) != Type::Double \{$", before):
             kind = "weights_type_double"
+        elif re.search(r"if points\.type_\(\) != Type::Double \{$", before):
+            kind = "points_type_double"
         elif re.search(r"match &\*adjncy \{ Adjncy::Int64\(matrix\) => \*matrix, _ =>$", before):
             kind = "adjncy_type_int64"
         else:
@@ -669,18 +671,59 @@ PROP = dict(
     cases=dict(quick=1500, thorough=12000),
     level="proof",
     harness_timeout=2400,
-    rule="(placeholder, thin slice)",
+    release_too=True,
+    rule="each case = one call of a C entry point of the cdylib built from the current tree (dlopen), next to the Rust API on the same "
+         "values: entry drawn from the 7 algorithm entry points (+ a small share for coupe_adjncy_csr's structure check); weights and "
+         "points independently through array / constant / callback (callbacks half of the time over reversed storage) x Type tag int / "
+         "int64 / double; element counts 0,1,2,2^k,3..24 (40 thorough, 11 for CKK); weight families uniform, ties, zeros, one dominant, "
+         "ones, small, negative, skewed; point families uniform, clustered, collinear, coincident, lattice, outlier (dyadic grid); "
+         "dimension 2 / 3 / {0,1,4,5,7,usize::MAX}; mismatched points/weights lengths (shorter, longer, empty); part counts 0,1,2,3,n,n+2; "
+         "Hilbert orders 0..32,33,64,u32::MAX; FM graphs path/grid/star/two cliques/random, adjacency of type int/double, wrong vertex "
+         "count, a third part, 0/finite limits, negative/zero/positive/NaN imbalance; inputs that panic inside the library (NaN weight "
+         "under Real::cmp, tolerance that does not convert, part count usize::MAX, i32 sums that overflow, NaN imbalance) whose C call "
+         "runs in a child process; 1/6 of the geometric cases on a second copy of the library with a 4-worker pool (exact inputs only); "
+         "distinct = distinct (thread mode, entry, dimension, both data sets with representation/tag/cells, adjacency, parameters, "
+         "initial array); non-trivial = at least 2 weights",
     class_names={0: "OK", 1: "ALLOC", 2: "CRASH", 3: "BAD_DIMENSION", 4: "BAD_TYPE", 5: "BIPART_ONLY", 6: "LEN_MISMATCH",
                  7: "NOT_FOUND", 8: "NEG_VALUES", 20: "abort/unwind", 21: "hang"},
     trusted_base=[
         "axioms: none (every theorem of Properties/C17.v is closed under the global context)",
+        "tools/props_d/C17.py (translator plugin): trusted to copy what it parses from ffi/src/lib.rs, ffi/src/data.rs, ffi/include/coupe.h "
+        "(enum orders, conversion arms, entry-point structure by brace matching, macro element types, accessor shapes of data.rs as "
+        "whole-function regexes, struct-literal fields, prototypes mapped to ABI tokens); fails closed on anything else",
+        "the Rust algorithms are an abstract parameter of the model: what they compute is the subject of the other properties",
+        "modelled, not verified: undefined behaviour (memory read at another type than it holds / beyond what the caller provided) is the "
+        "explicit outcome UB of the model and all theorems are stated outside it; allocation failure (COUPE_ERR_ALLOC, abort on OOM) "
+        "is not modelled; that an uncaught panic really aborts at an `extern \"C\"` boundary is a property of the toolchain "
+        "(observed by the harness in child processes, not proved)",
+        "harness: cargo builds ffi/ with the dev profile (overflow checks on, as the harness's own coupe); libloading/dlopen; rayon pools of "
+        "1 worker on both sides (RAYON_NUM_THREADS), 4 workers for the second library instance",
     ],
-    assumptions=[],
+    assumptions=[
+        "memory contract of coupe.h: every data set points to cells of the announced type, the partition array has at least as many "
+        "cells as the data set that sizes it, callbacks are pure and thread-safe",
+        "with one rayon worker on both sides the reduction trees coincide, so float sums agree bit for bit; on the 4-worker instance "
+        "only inputs whose arithmetic is exact are used (DESIGN C06: dyadic grid for Rcb, 2^k integer points for Rib/Hilbert)",
+        "FiducciaMattheyses iterates over HashSets: on success only code, array length, ids in {0,1}, untouched tail and "
+        "`cut not worse` are compared, not the partition",
+        "the Type tag of a points data set is never read by the glue (finding candidate ffi-points-type-unchecked): cases that "
+        "announce points with another tag still hold doubles in memory; BAD_TYPE would be accepted as well",
+    ],
 )
 
 MANIFEST = dict(
-    text="(placeholder)",
-    design_ref="DESIGN.md §7 C17",
-    note="(placeholder)",
-    technique="Coq proof + translator + model/implementation correspondence through dlopen of the freshly built cdylib",
+    text="The C glue (7 algorithm entry points) is modelled as the composition it performs -- early returns, output slice, dimension "
+         "dispatch, element type chosen from the Type tag, reading of array / constant / callback data, call of an abstract Rust "
+         "algorithm, Result -> code conversion, catch_unwind -- with every table it depends on regenerated from lib.rs, data.rs and "
+         "coupe.h on each run. Proved for ALL inputs and ALL Rust algorithms: each entry point returns exactly the documented code of "
+         "the Rust result with the Rust partition in the caller's array (ffi_agrees_*), depends on a data set only through length, tag "
+         "and denoted elements (ffi_repr_indep_*, with constant/callback = array lemmas), never lets a panic out and reports it as CRASH "
+         "(ffi_never_unwinds, ffi_panic_contained, every generated entry guarded); error arms total/injective/documented; repr(C) enum "
+         "order = header order; exported names and prototypes = declared ones. The real cdylib, rebuilt and dlopen'ed on every run, is "
+         "compared with the Rust API and with the model on 1.5k/12k generated calls.",
+    design_ref="DESIGN.md §7 C17, §8 #15",
+    note="Partial by nature: UB (wrong element type, short arrays) is outside the model; allocation failure not modelled; real unwinding/"
+         "abort is observed (child processes), not proved. FM partitions compared only on their deterministic aspects. Trusted: Coq kernel, "
+         "the translator plugin (regex/brace level, fails closed), the harness. No axioms.",
+    technique="Coq proof over a table-driven glue model + translator (dispatch/err/guard/prototype tables) + dlopen correspondence with the freshly built cdylib, panicking inputs isolated in child processes",
 )
